@@ -38,4 +38,25 @@ theorem empty_inv : TreeInv Tree.empty :=
     rcases this with rfl | rfl <;> simp [Tree.empty, Tree.get, Node.children] at hc
     subst hc; decide) (fun σ => ⟨_, empty_good σ⟩)
 
+/-- `CsgTree::insert` keeps the invariant, the meaning of every existing node, and returns an id
+    that denotes the inserted node -/
+theorem insert_inv {t : Tree} (inv : TreeInv t) {n : Node}
+    (hn : ∀ c ∈ n.children, c < t.size) (hsmall : t.size < invalid) :
+    TreeInv (insert t n).1 ∧
+    (∀ σ i, i < t.size → denote (insert t n).1 σ i = denote t σ i) ∧
+    (∀ σ, denote (insert t n).1 σ (insert t n).2.1 = evalNode σ (denote t σ) n) ∧
+    (insert t n).2.1 < (insert t n).1.size := by
+  have hso := insert_sorted inv.struct inv.sorted hn
+  have hg := fun σ => insert_good (inv.good σ) hn hsmall
+  have hinv : TreeInv (insert t n).1 :=
+    treeInv_of_good hso (fun σ => by rcases hg σ with ⟨v', _, g, _⟩; exact ⟨v', g⟩)
+  refine ⟨hinv, ?_, ?_, ?_⟩
+  · intro σ i hi
+    rcases hg σ with ⟨v', hv', g, _, _, hle, _⟩
+    rw [← models_unique hso g.models i (by omega), hv' i hi]
+  · intro σ
+    rcases hg σ with ⟨v', _, g, hid, hlt, _⟩
+    rw [← models_unique hso g.models _ hlt, hid]
+  · rcases hg (fun _ => true) with ⟨_, _, _, _, hlt, _⟩; exact hlt
+
 end CelerVerif.Csg
